@@ -14,7 +14,7 @@ int main(int argc, char** argv)
             for (double x : {-40.0, 0.0, 1.0, 14.7, 3500.0}) {
                 const Opm::Dimension d(f, o);
                 const double si = d.convertRawToSi(x), raw = d.convertSiToRaw(x);
-                if (!Replay::close(si, x * f + o, o + 1) || !Replay::close(raw, (x - o) / f, 1.0) || !Replay::close(d.convertSiToRaw(si), x, 1.0) || !Replay::close(d.convertRawToSi(raw), x, o + 1)) {
+                if (!Replay::close(si, x * f + o, o + 1) || !Replay::close(raw, (x - o) / f, 1.0) || std::fabs(d.convertSiToRaw(si) - x) > 1e-9 * std::max(std::fabs(x), 1.0) + 8 * 2.3e-16 * (std::fabs(o) + std::fabs(x * f)) / f /* cancellation in (si - o) / f */ || !Replay::close(d.convertRawToSi(raw), x, o + 1)) {
                     w << "Dimension(factor " << f << ", offset " << o << ") at " << x << ": rawToSi = " << si << " (affine map gives " << x * f + o << "), siToRaw = " << raw
                       << " (inverse gives " << (x - o) / f << "), round trip " << d.convertSiToRaw(si);
                     return r.verdict(false, w.str());
